@@ -196,6 +196,9 @@ where
 
     fn next(&mut self) -> Option<Self::Item> {
         let step @ (u, w) = self.stack.pop()?;
+
+        assert!(u < self.visited.len(), "u = {u} isn't in the digraph");
+
         let visited_ptr = self.visited.as_mut_ptr();
         let visited_u = unsafe { visited_ptr.add(u) };
 
@@ -210,6 +213,11 @@ where
         let w = w + 1;
 
         for v in self.digraph.out_neighbors(u) {
+            assert!(
+                v < self.visited.len(),
+                "v = {v} isn't in the digraph"
+            );
+
             if !unsafe { *visited_ptr.add(v) } {
                 self.stack.push((v, w));
             }
